@@ -258,6 +258,66 @@ func init() {
 	}
 }
 
+func init() {
+	// price3: ONE fee-less transaction with TWO create-price messages of the SAME validator (operator
+	// A, which signs): the first is a regular report for feeder B with the next nonce, the second
+	// repeats it with the following nonce, so it passes the ante handler and is then refused by the
+	// message server (same source round again). The transaction fails as a whole.
+	extraBuilders["price3"] = func(r *Run, ctx sdk.Context, op Op) (*BuiltTx, error) {
+		w := r.W
+		a := w.Op(op.A)
+		bt := &BuiltTx{Op: op, Kind: "oracle", Method: "MsgCreatePrice x2 (one signer)", Operator: a.Addr}
+		key := r.activeConsKey(ctx, a)
+		isVal := key != nil
+		if key == nil {
+			key = r.currentConsKey(ctx, a)
+		}
+		if key == nil {
+			key = a.ConsKeys[ConsKeyPool-1]
+		}
+		p := r.Node.App.OracleKeeper.GetParams(ctx)
+		fid := uint64(op.B)
+		if fid == 0 {
+			fid = 1
+		}
+		if int(fid) >= len(p.TokenFeeders) {
+			fid = uint64(len(p.TokenFeeders) - 1)
+		}
+		feeder := p.TokenFeeders[fid]
+		bb, roundID, _ := BasedBlockFor(feeder, ctx.BlockHeight())
+		validator := sdk.ConsAddress(key.PubKey().Address()).String()
+		nonce := int32(1)
+		if n, ok := r.Node.App.OracleKeeper.GetNonce(ctx, validator); ok {
+			for _, x := range n.NonceList {
+				if x.FeederID == fid {
+					nonce = int32(x.Value) + 1
+				}
+			}
+		}
+		dec := int32(0)
+		if int(feeder.TokenID) < len(p.Tokens) {
+			dec = p.Tokens[feeder.TokenID].Decimal
+		}
+		price := op.S
+		if price == "" {
+			price = "1"
+		}
+		ts := ctx.BlockTime().UTC().Format(oracleTimeLayout)
+		detID := fmt.Sprintf("%d", roundID)
+		m1 := NewPriceMsg(OracleCreator(key), fid, bb, nonce, 1, price, dec, detID, ts)
+		m2 := NewPriceMsg(OracleCreator(key), fid, bb, nonce+1, 1, price, dec, detID, ts)
+		bz, err := OracleTx(r.Cfg.ChainID, key, key, SigValid, m1, m2)
+		if err != nil {
+			return nil, err
+		}
+		bt.Bytes = bz
+		bt.Sender = sdk.AccAddress(key.PubKey().Address())
+		bt.Oracle = &OracleInfo{Validator: validator, Creator: m1.Creator, FeederID: fid, BasedBlock: bb, Nonce: nonce, Price: price, Decimal: dec,
+			DetID: detID, SourceID: 1, Timestamp: ts, SigMode: SigValid, Size: len(bz), IsValidator: isVal, NMsgs: 2}
+		return bt, nil
+	}
+}
+
 // PriceRound appends one submission per operator (validators succeed, others are rejected)
 // for the given feeder with the same price, which finalises the round if a round is open.
 func PriceRound(nOps int, feeder int, price string) []Op {
